@@ -137,6 +137,8 @@ def build(case):
         spec.extra_files['temp_wh.dat'] = b'\x00' * 64
     if rng.random() < 0.3:
         spec.notes['cluster_probes'] = True
+    if spec.raw is not None and rng.random() < 0.3:
+        spec.notes['raw_symlink'] = True         # raw files reached through symbolic links
     if rng.random() < 0.2:
         spec.notes['template_scaling'] = [20.0, 0.5][int(rng.integers(0, 2))]   # display-only option of params.py
     if spec.raw is None and rng.random() < 0.3:
